@@ -308,5 +308,29 @@ def verify(contract, repo, tier="quick"):
                 if gname.endswith(":" + case.label) and all(d["premises"] == "unsat" for d in ds):
                     for d in ds:
                         d["verdict"] = "vacuous"
+    # concrete batteries of the contracts (bounded/replay_helpers.py) are also run on their own on every run: they are the run-time check of
+    # the same contract on the real code over a stated finite set of cases (bounded, never counted as proved)
+    res["batteries"] = []
+    seen = set()
+    from .dsl import battery_confirm
+    for case in cases:
+        if case.replay is None or case.confirm is not battery_confirm:
+            continue
+        try:
+            call = case.replay({})
+        except Exception:
+            continue
+        if not call or call.get("args") or call["target"] in seen:
+            continue
+        seen.add(call["target"])
+        from . import replay as rp
+        t1 = time.time()
+        out = rp.run_call(repo, call)
+        ok = out.get("kind") == "return" and out.get("value") is True
+        if out.get("kind") == "raise" and "/gfapy/" in str(out.get("raised_in")) and "/bounded/" not in str(out.get("raised_in")):
+            # an exception raised inside the library while the battery drove it through a scenario it expects to work: a failing case
+            out = {"kind": "return", "value": "the battery was stopped by %s raised in %s: %s" % (out.get("exc"), out.get("raised_in"), out.get("msg"))}
+        res["batteries"].append(dict(target=call["target"], ok=ok, seconds=round(time.time() - t1, 3),
+                                     outcome={k: v for k, v in out.items() if k != "tb"} if not ok else None))
     res["seconds"] = round(time.time() - t_start, 3)
     return res
